@@ -435,7 +435,10 @@ func (ego *list) Equals(another List) bool {
 }
 
 func (ego *list) Concat(another List) List {
-	newList := &list{val: append(ego.val, another.getVal().(*list).val...)}
+	added := another.getVal().(*list).val
+	newList := &list{val: make([]field, len(ego.val), len(ego.val)+len(added))}
+	copy(newList.val, ego.val)
+	newList.val = append(newList.val, added...)
 	newList.Init(newList)
 	return newList
 }
